@@ -1012,8 +1012,7 @@ def _run_symbol_case(case, ctx):
     ses.clean_tmp()
     ses.drop(d)
     res = {'classes': classes, 'viol': viol, 'inconclusive': inconc, 'evaluations': max(n_eval, 1)}
-    if case['layout'] == 'reversed' and len(case['kinds']['setup']) == 2 and 'symbol' not in _sampled and not viol \
-            and not why:
+    if 'symbol' not in _sampled and not viol and not why:
         _sampled.add('symbol')
         res['sample'] = {'cmd': 'exactly symbol FILE [SY_S [--ref]] | symbol --suite S FILE | symbol suite S',
                          'case_text': files['home/t.case'], 'expected': {'exit_code': 0, 'effects': 'none'},
